@@ -109,6 +109,9 @@ class WireValues(Suite):
         if not impl.get("size_eq"):
             ok = False
             notes.append("Size() != len(Marshal())")
+        if impl.get("api_ok") is False:
+            ok = False
+            notes.append("the marshal entry points disagree: %s" % impl.get("api_why"))
         if strings_utf8(op["kind"], op["v"]):
             for k in ("gen_vt", "vt_gen", "gen_gen"):
                 if not impl.get(k):
